@@ -29,17 +29,18 @@ func TestMain(m *testing.M) {
 
 // Case: one producer at node Prod of a DAG; every other node tries to read the producer's variable.
 type Case struct {
-	Name     string   `json:"name"`
-	ExportAs string   `json:"export_as,omitempty"`
-	Payloads []string `json:"payloads"` // one per command (cat of a file holding it)
-	NVar     int      `json:"nvar"`
-	Allow    bool     `json:"allow"` // allow_failure with a failing command in the middle
-	N        int      `json:"n"`     // stages
-	Edges    [][2]int `json:"edges"` // [i,j]: j depends on i (i<j in a hidden order; names are s<i>)
-	Prod     int      `json:"prod"`
-	Chain    []string `json:"chain"` // tokens for the .Output chain task
-	Format   string   `json:"format,omitempty"` // output format of the run: raw (default) | prefixed | cockpit
-	CLI      bool     `json:"cli,omitempty"`
+	Name      string   `json:"name"`
+	ExportAs  string   `json:"export_as,omitempty"`
+	Payloads  []string `json:"payloads"` // one per command (cat of a file holding it)
+	NVar      int      `json:"nvar"`
+	Allow     bool     `json:"allow"` // allow_failure with a failing command in the middle
+	N         int      `json:"n"`     // stages
+	Edges     [][2]int `json:"edges"` // [i,j]: j depends on i (i<j in a hidden order; names are s<i>)
+	Prod      int      `json:"prod"`
+	Chain     []string `json:"chain"`                // tokens for the .Output chain task
+	ChainFail []bool   `json:"chain_fail,omitempty"` // command i of the chain fails after printing (the chain task allows failures)
+	Format    string   `json:"format,omitempty"`     // output format of the run: raw (default) | prefixed | cockpit
+	CLI       bool     `json:"cli,omitempty"`
 }
 
 func (c Case) canon() string { b, _ := json.Marshal(c); return string(b) }
@@ -113,7 +114,11 @@ func consumerCmd(vn, out string) string {
 func (c Case) chainCommands(dir string) []string {
 	var cmds []string
 	for i, tok := range c.Chain {
-		cmds = append(cmds, fmt.Sprintf("printf '%%s' '{{ .Output }}' > %s; printf '%%s' '%s'", filepath.Join(dir, fmt.Sprint("chain", i)), tok))
+		cmd := fmt.Sprintf("printf '%%s' '{{ .Output }}' > %s; printf '%%s' '%s'", filepath.Join(dir, fmt.Sprint("chain", i)), tok)
+		if i < len(c.ChainFail) && c.ChainFail[i] {
+			cmd += "; exit 3" // an allowed failure: the next command still reads this command's output
+		}
+		cmds = append(cmds, cmd)
 	}
 	return cmds
 }
@@ -185,6 +190,7 @@ func runAPI(c Case, dir string) error {
 	if len(c.Chain) > 0 {
 		ch := task.FromCommands(c.chainCommands(dir)...)
 		ch.Name = "chain"
+		ch.AllowFailure = true
 		if err := r.Run(ch); err != nil {
 			return fmt.Errorf("chain task: %v", err)
 		}
@@ -238,7 +244,7 @@ func runCLI(c Case, dir string) error {
 		for _, x := range c.chainCommands(dir) {
 			l = append(l, x)
 		}
-		tasks = tasks.Set("chain-task", gen.Map{{K: "command", V: l}})
+		tasks = tasks.Set("chain-task", gen.Map{{K: "command", V: l}, {K: "allow_failure", V: true}})
 	}
 	cfg := gen.Map{{K: "tasks", V: tasks}, {K: "pipelines", V: gen.Map{{K: "pp", V: stages}}}}
 	os.WriteFile(filepath.Join(dir, "t.yaml"), []byte(gen.YAML(cfg)), 0o644)
@@ -349,6 +355,7 @@ func genCase(rt *rapid.T, cliMode bool) Case {
 	nchain := rapid.IntRange(0, 3).Draw(rt, "chain")
 	for i := 0; i < nchain; i++ {
 		c.Chain = append(c.Chain, rapid.StringMatching(`[A-Za-z0-9_./-]{1,20}`).Draw(rt, "token"))
+		c.ChainFail = append(c.ChainFail, rapid.IntRange(0, 3).Draw(rt, "chain-fail") == 0)
 	}
 	return c
 }
